@@ -124,6 +124,12 @@ var (
 func NumTerms() int64 { mu.Lock(); defer mu.Unlock(); return nextID }
 
 func mk(op Op, sort Sort, name string, p1, p2 int, args ...*Term) *Term {
+	return mkB(op, sort, name, p1, p2, nil, nil, args...)
+}
+
+// mkB: as mk, with the Int bounds of a *new* term set before the term is published in the table (terms are shared by
+// all exploration workers: nothing may be written to one after mk returns).
+func mkB(op Op, sort Sort, name string, p1, p2 int, lo, hi *big.Int, args ...*Term) *Term {
 	var sb strings.Builder
 	sb.WriteByte(byte(op) + 33)
 	sb.WriteString(name)
@@ -150,7 +156,7 @@ func mk(op Op, sort Sort, name string, p1, p2 int, args ...*Term) *Term {
 	nextID++
 	as := make([]*Term, len(args))
 	copy(as, args)
-	t := &Term{ID: nextID, Op: op, Args: as, Sort: sort, Name: name, P1: p1, P2: p2}
+	t := &Term{ID: nextID, Op: op, Args: as, Sort: sort, Name: name, P1: p1, P2: p2, Lo: lo, Hi: hi}
 	table[k] = t
 	return t
 }
@@ -264,13 +270,7 @@ func IntVarBounded(name string, lo, hi *big.Int) *Term {
 		}
 		return strings.ReplaceAll(x.String(), "-", "m")
 	}
-	t := mk(OVar, IntSort, name+"_b"+b(lo)+"_"+b(hi), 0, 0)
-	mu.Lock()
-	if t.Lo == nil && t.Hi == nil {
-		t.Lo, t.Hi = lo, hi
-	}
-	mu.Unlock()
-	return t
+	return mkB(OVar, IntSort, name+"_b"+b(lo)+"_"+b(hi), 0, 0, lo, hi)
 }
 
 // ---------- boolean ----------
@@ -402,16 +402,16 @@ func Ite(c, a, b *Term) *Term {
 	if a.Op == OIte && a.Args[0] == c {
 		a = a.Args[1]
 	}
-	t := mk(OIte, a.Sort, "", 0, 0, c, a, b)
-	if a.Sort.K == KInt && t.Lo == nil && t.Hi == nil {
+	var lo, hi *big.Int
+	if a.Sort.K == KInt {
 		if a.Lo != nil && b.Lo != nil {
-			t.Lo = minBig(a.Lo, b.Lo)
+			lo = minBig(a.Lo, b.Lo)
 		}
 		if a.Hi != nil && b.Hi != nil {
-			t.Hi = maxBig(a.Hi, b.Hi)
+			hi = maxBig(a.Hi, b.Hi)
 		}
 	}
-	return t
+	return mkB(OIte, a.Sort, "", 0, 0, lo, hi, c, a, b)
 }
 
 func minBig(a, b *big.Int) *big.Int {
@@ -1151,14 +1151,7 @@ func IAdd(a, b *Term) *Term {
 	if b.IsConst() && a.Op == OIAdd && a.Args[1].IsConst() {
 		return IAdd(a.Args[0], IntConst(new(big.Int).Add(a.Args[1].Big, b.Big)))
 	}
-	t := mk(OIAdd, IntSort, "", 0, 0, a, b)
-	if t.Lo == nil {
-		t.Lo = addB(a.Lo, b.Lo)
-	}
-	if t.Hi == nil {
-		t.Hi = addB(a.Hi, b.Hi)
-	}
-	return t
+	return mkB(OIAdd, IntSort, "", 0, 0, addB(a.Lo, b.Lo), addB(a.Hi, b.Hi), a, b)
 }
 
 func ISub(a, b *Term) *Term {
@@ -1168,14 +1161,7 @@ func ISub(a, b *Term) *Term {
 	if a == b {
 		return IntConstI(0)
 	}
-	t := mk(OISub, IntSort, "", 0, 0, a, b)
-	if t.Lo == nil {
-		t.Lo = subB(a.Lo, b.Hi)
-	}
-	if t.Hi == nil {
-		t.Hi = subB(a.Hi, b.Lo)
-	}
-	return t
+	return mkB(OISub, IntSort, "", 0, 0, subB(a.Lo, b.Hi), subB(a.Hi, b.Lo), a, b)
 }
 
 func INeg(a *Term) *Term { return ISub(IntConstI(0), a) }
@@ -1195,16 +1181,15 @@ func IMul(a, b *Term) *Term {
 			return a
 		}
 	}
-	t := mk(OIMul, IntSort, "", 0, 0, a, b)
-	if t.Lo == nil && t.Hi == nil && a.Lo != nil && a.Hi != nil && b.Lo != nil && b.Hi != nil {
+	var lo, hi *big.Int
+	if a.Lo != nil && a.Hi != nil && b.Lo != nil && b.Hi != nil {
 		c := []*big.Int{new(big.Int).Mul(a.Lo, b.Lo), new(big.Int).Mul(a.Lo, b.Hi), new(big.Int).Mul(a.Hi, b.Lo), new(big.Int).Mul(a.Hi, b.Hi)}
-		lo, hi := c[0], c[0]
+		lo, hi = c[0], c[0]
 		for _, x := range c[1:] {
 			lo, hi = minBig(lo, x), maxBig(hi, x)
 		}
-		t.Lo, t.Hi = lo, hi
 	}
-	return t
+	return mkB(OIMul, IntSort, "", 0, 0, lo, hi, a, b)
 }
 
 // IDiv / IMod: SMT-LIB euclidean semantics (divisor must be a nonzero constant for folding of bounds).
@@ -1220,9 +1205,7 @@ func IDiv(a, b *Term) *Term {
 		if ql.Cmp(qh) == 0 {
 			return IntConst(ql)
 		}
-		t := mk(OIDiv, IntSort, "", 0, 0, a, b)
-		t.Lo, t.Hi = ql, qh
-		return t
+		return mkB(OIDiv, IntSort, "", 0, 0, ql, qh, a, b)
 	}
 	return mk(OIDiv, IntSort, "", 0, 0, a, b)
 }
@@ -1235,9 +1218,7 @@ func IMod(a, b *Term) *Term {
 		if a.Lo != nil && a.Hi != nil && a.Lo.Sign() >= 0 && a.Hi.Cmp(b.Big) < 0 {
 			return a
 		}
-		t := mk(OIMod, IntSort, "", 0, 0, a, b)
-		t.Lo, t.Hi = big.NewInt(0), new(big.Int).Sub(b.Big, big.NewInt(1))
-		return t
+		return mkB(OIMod, IntSort, "", 0, 0, big.NewInt(0), new(big.Int).Sub(b.Big, big.NewInt(1)), a, b)
 	}
 	return mk(OIMod, IntSort, "", 0, 0, a, b)
 }
@@ -1304,9 +1285,7 @@ func Bv2Int(a *Term) *Term {
 	if a.IsConst() {
 		return IntConst(a.BigVal())
 	}
-	t := mk(OBv2Int, IntSort, "", 0, 0, a)
-	t.Lo, t.Hi = big.NewInt(0), bigMask(a.Sort.W)
-	return t
+	return mkB(OBv2Int, IntSort, "", 0, 0, big.NewInt(0), bigMask(a.Sort.W), a)
 }
 
 func Int2Bv(a *Term, w int) *Term {
